@@ -353,6 +353,14 @@ def run(chk, replay=None):
 
     # ---- decide
     seen = set()
+    retry_bad = [i for i, (c, o) in enumerate(zip(cases, obs)) if c.get("proc") and o.get("retry_same") is False]
+    chk.cov.setdefault("stages", {})["retries"] = {"applications_retried": sum(1 for o in obs if o.get("retries")),
+                                                    "attempts": sum(o.get("retries", 0) for o in obs), "differing": len(retry_bad)}
+    for i in retry_bad[:3]:
+        chk.fail("retry_%d.json" % i, {"what": "a later connect attempt of an application that had not connected behaved differently "
+                                               "from its first attempt although the collector gave the same answers: "
+                                               + obs[i].get("retry_differ", "") + " (the handshake is fail-closed on every attempt)",
+                                       "cases": [cases[i]], "observed": obs[i]}, sig="c13-retry-differs")
     for i in d_prop + p_prop:
         sig = classify(cases[i], obs[i])
         if sig in seen:
